@@ -40,7 +40,7 @@ package content
 //@   ensures [C05:wf] wf(vr)
 //@   ensures [C05:eof-means-complete] err == io.EOF ==> vr.base != nil && vr.base.N == 0
 //@   ensures [C05:sticky] old(vr.err) != nil ==> n == 0 && err == old(vr.err)
-//@   modifies VerifyReader.err, io.LimitedReader.N, ghost.delivered, ghost.atEOF, ghost.digestOK, elems[byte], alloc
+//@   modifies VerifyReader.err@vr, io.LimitedReader.N, ghost.delivered, ghost.atEOF, ghost.digestOK, elems[byte], alloc
 //@
 //@ func ensureEOF
 //@   requires [reader-inv] readerInv(r)
@@ -57,7 +57,7 @@ package content
 //@   ensures [C05:early] old(vr.err) == nil && old(vr.base.N) > 0 ==> result == errEarlyVerify
 //@   ensures [C05:idempotent] old(vr.verified) ==> result == nil
 //@   ensures [monotone] forall s io.Reader, d ocispec.Descriptor :: old(matched(s, d)) ==> matched(s, d)
-//@   modifies VerifyReader.err, VerifyReader.verified, ghost.matched, ghost.atEOF, ghost.digestOK, ghost.delivered, io.LimitedReader.N, elems[byte], alloc
+//@   modifies VerifyReader.err, VerifyReader.verified@vr, ghost.matched, ghost.atEOF, ghost.digestOK, ghost.delivered, io.LimitedReader.N, elems[byte], alloc
 //@
 //@ func ReadAll
 //@   ensures [C05:nil-means-exact] result1 == nil ==> desc.Size >= 0 && len(result0) == desc.Size && matched(r, desc)
